@@ -4,11 +4,12 @@ wt=$1; ch=$2
 cd $wt
 git checkout -- . 2>/dev/null
 build_demo() {
-  if [ -f $ch/demo.c ]; then gcc -O1 -I $wt/src/libsodium/include -I $wt/src/libsodium/include/sodium -I $ch $ch/demo.c $wt/src/libsodium/.libs/libsodium.a -lpthread -o /tmp/demo.$$ 2>/tmp/demo.$$.err || { echo "demo build failed"; head -5 /tmp/demo.$$.err; return 1; }
+  if [ -f $ch/demo.build ]; then W=$wt CH=$ch OUT=/tmp/demo.$$ bash $ch/demo.build 2>/tmp/demo.$$.err || { echo "demo build failed (demo.build)"; head -5 /tmp/demo.$$.err; return 1; }
+  elif [ -f $ch/demo.c ]; then gcc -O1 -I $wt/src/libsodium/include -I $wt/src/libsodium/include/sodium -I $ch $ch/demo.c $wt/src/libsodium/.libs/libsodium.a -lpthread -o /tmp/demo.$$ 2>/tmp/demo.$$.err || { echo "demo build failed"; head -5 /tmp/demo.$$.err; return 1; }
   elif [ -f $ch/demo.cpp ]; then g++ -O1 -I $wt/src/libsodium/include -I $wt/src/libsodium/include/sodium -I $ch $ch/demo.cpp $wt/src/libsodium/.libs/libsodium.a -lpthread -o /tmp/demo.$$ 2>/tmp/demo.$$.err || { echo "demo build failed"; return 1; }
   fi
 }
-run_demo() { if [ -f $ch/demo.sh ]; then (cd $wt && bash $ch/demo.sh) >/tmp/demo.$$.out 2>&1; else /tmp/demo.$$ >/tmp/demo.$$.out 2>&1; fi; echo $?; }
+run_demo() { if [ -f $ch/demo.sh ] && [ ! -f $ch/demo.build ]; then (cd $wt && bash $ch/demo.sh) >/tmp/demo.$$.out 2>&1; else /tmp/demo.$$ >/tmp/demo.$$.out 2>&1; fi; echo $?; }
 make -j16 >/dev/null 2>&1
 build_demo; a=$(run_demo)
 git apply $ch/patch.diff || { echo "patch does not apply"; exit 1; }
